@@ -125,7 +125,7 @@ SplyBad(ln) ==
                             /\ \E j \in DOMAIN d : d[j].a = o[a].a
                             /\ LET x == Dec(o[a].a) IN
                                \/ x.ar # o[a].ar \/ x.n # n \/ Len(x.v) # n
-                               \/ \E i \in I : \E c \in 1..o[a].ar : x.v[i][c] # o[a].v[i][c] \o <<1>>,
+                               \/ \E i \in I : \E c \in 1..o[a].ar : SubSeq(x.v[i][c], 1, 2) # o[a].v[i][c],   \* at float32 precision
                         "C15.PlyRead"))
 
 Step1 ==
